@@ -3,7 +3,7 @@ import St4sd.Model.Dsl
 # C06 — machine-checked counterexamples for the algorithms as coded before fixes/C06-*.diff
 
 The same inputs are in the corpus of `harness/c06.py` and fail on the unfixed real code
-(`FlowIRComponentExists`, `AttributeError`, endless loop / silently wrong producer).
+(`FlowIRComponentExists`, `AttributeError`, endless loop / silently wrong producer, `KeyError`).
 -/
 namespace St4sd.C06.Witness
 open St4sd.Dsl St4sd.Str
@@ -33,5 +33,12 @@ theorem old_split_accepts_partial_overlap :
     splitOld [[lc "e", lc "c"], [lc "e", lc "a", lc "p"]] [lc "e", lc "a", lc "nosuch"] = some ([lc "e", lc "a", lc "p"], []) ∧
     split [[lc "e", lc "c"], [lc "e", lc "a", lc "p"]] [lc "e", lc "a"] = none ∧
     split [[lc "e", lc "c"], [lc "e", lc "a", lc "p"]] [lc "e", lc "a", lc "nosuch"] = none := by decide
+
+/-- (d) a component whose `command.environment` names a parameter it does not have: the code as it was raised a
+bare `KeyError` (after recording the proper error); the repaired check refuses it with a located DSL error. -/
+theorem old_env_unknown_parameter_raises_keyerror :
+    envOfOld [(lc "env", [.dict (lc "{A:1}")])] (some (lc "nosuch")) = .keyError ∧
+    envOf [(lc "env", [.dict (lc "{A:1}")])] (some (lc "nosuch")) = none ∧
+    envOfOld [(lc "env", [.dict (lc "{A:1}")])] (some (lc "env")) = .ok (.dict (lc "{A:1}")) := by decide
 
 end St4sd.C06.Witness
